@@ -11,6 +11,7 @@ import (
 	"strings"
 	"sync"
 	"testing"
+	"unicode/utf8"
 
 	"github.com/IBM/sarama"
 	"github.com/IBM/sarama/mocks"
@@ -220,14 +221,25 @@ func runCase(c Case) *ev.Failure {
 	}
 	close(ch)
 	<-done
-	if err := mp.Close(); err != nil {
-		return ev.Failf("mock producer: %v", err)
+	closeErr := mp.Close()
+	// records carrying a string that is not valid UTF-8 cannot be expressed in proto3: they may be
+	// published or skipped, but every other record must still be published exactly once, in order
+	invalid := 0
+	for _, m := range c.Msgs {
+		if m.Tpl {
+			continue
+		}
+		for _, r := range m.Recs {
+			if !validRecord(r) {
+				invalid++
+			}
+		}
 	}
-	if len(rep.errs) > 0 {
-		return ev.Failf("number of published Kafka messages differs from the number of data records (%d): %s", total, rep.errs[0])
+	if len(got) > total || len(got) < total-invalid {
+		return ev.Failf("%d Kafka messages published for %d data records (%d of them carry a string that is not valid UTF-8 and may be skipped)", len(got), total, invalid)
 	}
-	if len(got) != total {
-		return ev.Failf("%d Kafka messages published for %d data records", len(got), total)
+	if invalid == 0 && (closeErr != nil || len(rep.errs) > 0) {
+		return ev.Failf("number of published Kafka messages differs from the number of data records (%d): %v %v", total, closeErr, rep.errs)
 	}
 	sch := protoSchema()
 	kc := consumer.NewKafkaConsumer(consumer.ConsumerInput{KafkaProtoSchema: sch, MsgDelimitWithLen: true})
@@ -237,9 +249,19 @@ func runCase(c Case) *ev.Failure {
 			continue
 		}
 		for ri, r := range m.Recs {
+			where := fmt.Sprintf("message %d record %d", mi, ri)
+			if !validRecord(r) {
+				// skipped, or published: if the next publication carries this record's source port, take it
+				if k < len(got) && len(got)-k > remainingValid(c, mi, ri) {
+					k++
+				}
+				continue
+			}
+			if k >= len(got) {
+				return ev.Failf("%s: no Kafka message was published for this record (%d publications in all)", where, len(got))
+			}
 			p := got[k]
 			k++
-			where := fmt.Sprintf("message %d record %d", mi, ri)
 			if p.topic != c.Topic {
 				return ev.Failf("%s: published on topic %q, configured %q", where, p.topic, c.Topic)
 			}
@@ -320,6 +342,31 @@ func runCase(c Case) *ev.Failure {
 	return nil
 }
 
+func validRecord(r []FieldVal) bool {
+	for _, fv := range r {
+		if s, ok := schema[fv.Name]; ok && s.kind == 's' && !utf8.Valid(fv.V.B) {
+			return false
+		}
+	}
+	return true
+}
+
+// remainingValid counts the valid records after position (mi, ri).
+func remainingValid(c Case, mi, ri int) int {
+	n := 0
+	for i, m := range c.Msgs {
+		if m.Tpl || i < mi {
+			continue
+		}
+		for j, r := range m.Recs {
+			if (i > mi || j > ri) && validRecord(r) {
+				n++
+			}
+		}
+	}
+	return n
+}
+
 func genRecord(t *rapid.T) []FieldVal {
 	v6 := rapid.Bool().Draw(t, "v6")
 	var names []string
@@ -351,6 +398,14 @@ func genRecord(t *rapid.T) []FieldVal {
 		f, _ := glue.FieldOf(aggh.IE(n))
 		r = append(r, FieldVal{Name: n, V: gen.Value(t, f, 60)})
 	}
+	if rapid.IntRange(0, 14).Draw(t, "badutf8") == 0 { // a string that is not valid UTF-8
+		for i := range r {
+			if s, ok := schema[r[i].Name]; ok && s.kind == 's' {
+				r[i].V = ref.Value{B: []byte{'p', 0xC3, 0x28, 0xFF}}
+				break
+			}
+		}
+	}
 	return r
 }
 
@@ -377,6 +432,18 @@ func genCase(t *rapid.T) Case {
 }
 
 func TestC19(t *testing.T) {
+	// every run: a message whose header fields and record values are all zero / empty (its protobuf
+	// body is empty, the payload is just the 4-byte length 0), in both schemas
+	for schemaNo := 1; schemaNo <= 2; schemaNo++ {
+		for _, r := range [][]FieldVal{{}, {{Name: "sourceTransportPort"}, {Name: "sourcePodName"}, {Name: "packetTotalCount"}}} {
+			c := Case{Schema: schemaNo, Topic: "t", Msgs: []Msg{{Recs: [][]FieldVal{r, r}}, {Tpl: true, Recs: [][]FieldVal{r}}, {Recs: [][]FieldVal{r}}}}
+			rec.Case(ev.Hash(c), true, "all_zero_message")
+			if f := runCase(c); f != nil {
+				rec.Violation("preamble", c, f.Msg)
+				t.Fatalf("%s", f.Msg)
+			}
+		}
+	}
 	ev.Rapid(t, rec, "streams", rec.Scale(4000, 2000000), genCase, func(c Case) *ev.Failure {
 		recs, rich, tpl, empty := 0, false, false, false
 		for _, m := range c.Msgs {
